@@ -33,6 +33,17 @@ struct Gates {
 
 thread_local! {
     static GATES: RefCell<Option<Gates>> = const { RefCell::new(None) };
+    static LOCAL_CMD_CHANNEL_SIZE: std::cell::Cell<Option<usize>> = const { std::cell::Cell::new(None) };
+}
+
+/// Capacity of the local-command channel of drivers built on this thread from now on
+/// (`None` = the shipped `NETWORKING_CHANNEL_SIZE`): a tuning knob the simulator randomises per run.
+pub fn set_local_cmd_channel_size(size: Option<usize>) {
+    LOCAL_CMD_CHANNEL_SIZE.with(|c| c.set(size));
+}
+
+pub(crate) fn local_cmd_channel_size() -> Option<usize> {
+    LOCAL_CMD_CHANNEL_SIZE.with(|c| c.get())
 }
 
 /// Install a gate controller on the current thread. From now on every gated task spawned on this
